@@ -114,3 +114,23 @@ def _shuffle_segment(rng, seg):
 
 def has_kind(p, kinds):
     return any(x["k"] in kinds for x in gen.walk(p))
+
+
+def avoid_hidden_short_adj(opts, pieces):
+    """A short name declared under hide() is unknown to the tokenizer (known finding C02-hidden-short): do not write
+    such an argument as `-Jvalue`, which bpaf reads as a plain word, not as a named occurrence."""
+    hidden = set()
+    for x in gen.walk(opts):
+        if x["k"] == "hide":
+            hidden.update(id(y) for y in gen.walk(x["p"]))
+    for p in pieces:
+        if p.kind == "chunk" and p.chunk.form == "short_adj" and id(p.chunk.node) in hidden:
+            nd = p.chunk.node
+            nm = nd["n"]["short"][0].encode()
+            items = [b"-" + nm + b"=" + p.chunk.value] if len(nm) == 1 else \
+                ([b"--" + nd["n"]["long"][0].encode() + b"=" + p.chunk.value] if nd["n"]["long"] else None)
+            if items is None and standalone(p.chunk.value) and not nd["adjacent"]:
+                items = [b"-" + nm, p.chunk.value]
+            if items is not None:
+                p.items = items
+    return pieces
